@@ -209,6 +209,15 @@ fn dec_key(b: &[u8]) -> Result<(String, Value), String> {
     Ok((name, val))
 }
 
+pub fn dec_key_pub(b: &[u8]) -> Result<(String, Value), String> {
+    dec_key(b)
+}
+
+pub fn dec_values_pub(b: &[u8]) -> Result<Vec<(String, Value)>, String> {
+    let vals: Vec<FactValue> = postcard::from_bytes(b).map_err(|e| format!("value postcard: {e}"))?;
+    Ok(vals.into_iter().map(|v| (v.identifier.to_string(), v.value)).collect())
+}
+
 /// All stored facts of `name` (prefix `[]`) in the storage's iteration order.
 pub fn dump_facts(p: &Persp, name: &str) -> Result<Vec<StoredFact>, String> {
     let it = p.query_prefix(name, &[]).map_err(|e| format!("query_prefix: {e}"))?;
